@@ -127,8 +127,8 @@ func c20Delay(r *tr.Run) (n int) {
 		}
 	}
 	genDelay := 11 * time.Second
-	ctxVariants := []string{"for", "until-future", "until-past", "for-zero"}
-	ctxDur := map[string]time.Duration{"for": 7 * time.Second, "until-future": 90 * time.Minute, "until-past": -3 * time.Second, "for-zero": 0}
+	ctxVariants := []string{"for", "until-future", "until-past", "for-zero", "zero-value"} // zero-value: delay.Delay{} -- a delay in the context all the same
+	ctxDur := map[string]time.Duration{"for": 7 * time.Second, "until-future": 90 * time.Minute, "until-past": -3 * time.Second, "for-zero": 0, "zero-value": 0}
 	// build makes the messages of a batch; for a message with a context delay it also notes the stamp that delay stands for
 	// (what delay.Message writes for it): the Publisher has to write exactly that, whenever the message is published
 	build := func(batch []string, ctxKind string) ([]*message.Message, map[int][2]string) {
@@ -146,6 +146,9 @@ func c20Delay(r *tr.Run) (n int) {
 				d := delay.For(ctxFor)
 				if ctxKind == "until-future" || ctxKind == "until-past" {
 					d = delay.Until(time.Now().UTC().Add(ctxFor))
+				}
+				if ctxKind == "zero-value" {
+					d = delay.Delay{}
 				}
 				m.SetContext(delay.WithContext(context.Background(), d))
 				scratch := message.NewMessage("scratch", nil)
@@ -195,7 +198,7 @@ func c20Delay(r *tr.Run) (n int) {
 					f = "gen"
 				case batch[i] == "ctx":
 					// For: exactly the configured duration; Until: the duration left when Until() was called
-					if (ctxKind == "for" || ctxKind == "for-zero") && d == ctxFor {
+					if (ctxKind == "for" || ctxKind == "for-zero" || ctxKind == "zero-value") && d == ctxFor {
 						f = "ctx"
 					}
 					if (ctxKind == "until-future" || ctxKind == "until-past") && d <= ctxFor && d >= ctxFor-5*time.Second {
@@ -204,7 +207,7 @@ func c20Delay(r *tr.Run) (n int) {
 				}
 				from = append(from, f)
 				// delayed-until minus delayed-for is the stamping instant (second resolution); metadata pre-set earlier is exempt
-				if f != "meta" {
+				if f != "meta" && ctxKind != "zero-value" {
 					inst := u.Add(-d)
 					if inst.Before(before.Add(-6*time.Second)) || inst.After(after.Add(2*time.Second)) {
 						agree = false
